@@ -126,7 +126,7 @@ def main() -> None:
             any_ = True
         return classes, any_, typeobj, call
 
-    result = {"errors": len(res.errors), "modules": {}}
+    result = {"errors": len(res.errors), "diagnostics": [str(e) for e in res.errors][:500], "modules": {}}
     for name, f in res.files.items():
         if not (name == "joserfc" or name.startswith("joserfc.")):
             continue
